@@ -8,73 +8,175 @@
 (*   MFinish - the shape's finish hook is called                           *)
 (*   MEnd    - the call returns                                            *)
 (*                                                                         *)
-(* Everything the library does between two callbacks is folded into the    *)
-(* action that precedes it (ParseFront before MConv, ParseBack before      *)
-(* MFinish, name check / retain / checksum before MEnd).  The actions take *)
-(* the observed values as arguments, so that MC_Shapes can generate the    *)
-(* allowed behaviours and Trace_Shapes can check recorded ones.            *)
+(* The machine states what C14 states and no more.  In particular it does  *)
+(* not fix WHEN, between MBegin and MEnd, the library looks at the other   *)
+(* components of the string: the conversion may be called as soon as the   *)
+(* type substring is known to be well-formed, whether or not a qualifier   *)
+(* or the subpath turns out to be broken later, and when the input has     *)
+(* several independent defects any of their errors may be returned.  The   *)
+(* order the library uses today (PurlParse!ParseF: subpath, qualifiers,    *)
+(* type, conversion, version, namespace, name, build) is one behaviour of  *)
+(* the machine - MC_Shapes checks that (LibraryOrderAdmitted) - and so is  *)
+(* every other order a maintainer may choose.  What the machine does fix:  *)
+(*   - conversion: at most once, only during a parse, only before the      *)
+(*     hook, only with the type substring exactly as written, and only if  *)
+(*     that substring is a syntactically valid type;                       *)
+(*   - hook: at most once, only after a successful conversion (parse) /    *)
+(*     exactly once (build), on the fully decoded parts;                   *)
+(*   - a failed conversion or hook ends the call with that very error;     *)
+(*   - without any defect the call cannot end before the hook has run, and *)
+(*     the result is what the hook left, after the generic checks (empty   *)
+(*     name refused, empty-valued qualifiers dropped, checksum canonical   *)
+(*     or refused).                                                        *)
+(* The actions take the observed values as arguments, so that MC_Shapes    *)
+(* can generate the allowed behaviours and Trace_Shapes can check recorded *)
+(* ones.                                                                   *)
 (***************************************************************************)
 EXTENDS PurlParse
 
-VARIABLES pc,        \* "idle", "conv", "finish", "end"
-          shape,     \* parameters of the test shape in use
+VARIABLES pc,        \* "idle", "open", "end"
+          shape,     \* parameters of the shape in use
           entry,     \* "parse" | "build"
-          front,     \* result of ParseFront (parse entry)
-          st, parts, \* shape value and parts handed to the next stage
-          out,       \* outcome the call must return
+          info,      \* what the input string says, independent of any order of evaluation (parse entry)
+          conv,      \* "none" | "ok" | "failed"
+          hook,      \* "none" | "ok" | "failed"
+          st, parts, \* shape value and parts: before the hook what it will be given, after it what it left
+          out,       \* the outcome the call returned (set by MEnd)
           nConv, nFin
-mvars == <<pc, shape, entry, front, st, parts, out, nConv, nFin>>
+mvars == <<pc, shape, entry, info, conv, hook, st, parts, out, nConv, nFin>>
+
+NoInfo == [scheme |-> FALSE, typeKnown |-> FALSE, type |-> <<>>, defects |-> {}, clean |-> FALSE, parts |-> NoParts]
+
+(***************************************************************************)
+(* Analysis of an input string by component, with no order among the       *)
+(* components.  `defects` is the set of error classes of all the generic   *)
+(* defects present; it is empty exactly when ParseFront and ParseBack both *)
+(* succeed (InfoMatchesParse, checked by MC_Shapes), and then `parts` is   *)
+(* what they produce.                                                      *)
+(***************************************************************************)
+RECURSIVE QualItemDefects(_, _)
+QualItemDefects(items, seen) ==
+   IF items = <<>> THEN {}
+   ELSE LET it == items[1]  e == FirstIdx(it, EQ) IN
+        IF e = 0 THEN {"InvalidQualifier"} \cup QualItemDefects(Tail(items), seen)
+        ELSE LET k == Take(it, e - 1)  d == Decode(Drop(it, e)) IN
+             (IF ~ValidKey(k) \/ ALowerS(k) \in seen THEN {"InvalidQualifier"} ELSE {})
+             \cup (IF ~d.ok THEN {"InvalidEscape"} ELSE {})
+             \* as in DecQuals, only a key that was given a non-empty value occupies its slot
+             \cup QualItemDefects(Tail(items), IF ValidKey(k) /\ d.ok /\ d.s # <<>> THEN seen \cup {ALowerS(k)} ELSE seen)
+Analyse(s) ==
+  IF ~StartsWith(s, PKG) THEN [NoInfo EXCEPT !.defects = {"UnsupportedUrlScheme"}] ELSE
+  LET s1 == TrimStart(Drop(s, 4), SLASH)
+      ih == LastIdx(s1, HASH)
+      s2 == IF ih = 0 THEN s1 ELSE Take(s1, ih - 1)
+      iq == LastIdx(s2, QM)
+      s3 == IF iq = 0 THEN s2 ELSE Take(s2, iq - 1)
+      it == FirstIdx(s3, SLASH)
+      type == IF it = 0 THEN s3 ELSE Take(s3, it - 1)
+      dSub == IF ih # 0 /\ ~DecodeSubpath(Drop(s1, ih)).ok THEN {"InvalidEscape"} ELSE {}
+      dQ == IF iq = 0 THEN {} ELSE QualItemDefects(Split(Drop(s2, iq), AMP), {})
+      dType == (IF s3 = <<>> THEN {"MissingType", "MissingName"} ELSE {})
+               \cup (IF s3 # <<>> /\ it = 0 THEN {"MissingName"} ELSE {})
+               \cup (IF s3 # <<>> /\ ~ValidType(type) THEN {"InvalidPackageType"} ELSE {})
+      bk == IF it = 0 THEN [ok |-> TRUE] ELSE ParseBack([rest |-> Drop(s3, it), q |-> <<>>, sub |-> <<>>])
+      dBack == IF bk.ok THEN {} ELSE {bk.err}
+      f == ParseFront(s)
+      all == dSub \cup dQ \cup dType \cup dBack
+  IN [scheme |-> TRUE, typeKnown |-> (type # <<>> /\ ValidType(type)), type |-> type, defects |-> all, clean |-> all = {},
+      parts |-> IF all = {} /\ f.ok THEN ParseBack(f).parts ELSE NoParts]
+\* design-level: the order-free analysis agrees with the transcribed parser on what is clean, and contains its error
+InfoMatchesParse(s) ==
+  LET a == Analyse(s)  f == ParseFront(s) IN
+  /\ a.clean <=> (f.ok /\ ParseBack(f).ok)
+  /\ (~f.ok => f.err \in a.defects)
+  /\ ((f.ok /\ ~ParseBack(f).ok) => ParseBack(f).err \in a.defects)
+  /\ (f.ok => (a.typeKnown /\ a.type = f.type))
 
 MInit == /\ pc = "idle" /\ shape = [kind |-> "test", conv |-> TRUE, fin |-> TRUE, edits |-> <<>>]
-         /\ entry = "none" /\ front = [ok |-> FALSE] /\ st = <<>> /\ parts = NoParts
+         /\ entry = "none" /\ info = NoInfo /\ conv = "none" /\ hook = "none" /\ st = <<>> /\ parts = NoParts
          /\ out = [ok |-> FALSE, err |-> "none"] /\ nConv = 0 /\ nFin = 0
 
 \* The machine is written for any shape: the built-in ones (Generic, Typed) take the same steps, their
-\* conversion and hook being library code; MC_Shapes checks MachineIsParseF for them as well.
+\* conversion and hook being library code.
 MBeginParse(s, shp) ==
-  /\ pc = "idle" /\ shape' = shp /\ entry' = "parse" /\ nConv' = 0 /\ nFin' = 0
-  /\ LET f == ParseFront(s) IN
-     /\ front' = f /\ st' = <<>> /\ parts' = NoParts
-     /\ IF f.ok THEN pc' = "conv" /\ out' = out ELSE pc' = "end" /\ out' = Err(WrapErr(shp, f.err))
+  /\ pc \in {"idle", "end"} /\ pc' = "open" /\ shape' = shp /\ entry' = "parse" /\ nConv' = 0 /\ nFin' = 0
+  /\ info' = Analyse(s) /\ conv' = "none" /\ hook' = "none" /\ st' = <<>> /\ parts' = Analyse(s).parts /\ out' = out
 MBeginBuild(st0, parts0, shp) ==
-  /\ pc = "idle" /\ shape' = shp /\ entry' = "build" /\ nConv' = 0 /\ nFin' = 0
-  /\ front' = [ok |-> FALSE] /\ st' = st0 /\ parts' = parts0 /\ pc' = "finish" /\ out' = out
-\* the conversion is called with `arg`: only now, only once, only with the type as written
+  /\ pc \in {"idle", "end"} /\ pc' = "open" /\ shape' = shp /\ entry' = "build" /\ nConv' = 0 /\ nFin' = 0
+  /\ info' = NoInfo /\ conv' = "none" /\ hook' = "none" /\ st' = st0 /\ parts' = parts0 /\ out' = out
+
+\* the conversion is called with `arg`: once, before the hook, only with the valid type as written
+CanConv(arg) == /\ pc = "open" /\ entry = "parse" /\ conv = "none" /\ hook = "none"
+                /\ info.typeKnown /\ arg = info.type
 MConv(arg) ==
-  /\ pc = "conv" /\ arg = front.type /\ ValidType(arg)
+  /\ CanConv(arg)
   /\ nConv' = nConv + 1
   /\ LET c == ShapeConv(shape, arg) IN
-     IF ~c.ok THEN pc' = "end" /\ out' = c /\ UNCHANGED <<st, parts>>
-     ELSE LET bk == ParseBack(front) IN
-          IF bk.ok THEN pc' = "finish" /\ st' = c.st /\ parts' = bk.parts /\ out' = out
-          ELSE pc' = "end" /\ out' = Err(WrapErr(shape, bk.err)) /\ UNCHANGED <<st, parts>>
-  /\ UNCHANGED <<shape, entry, front, nFin>>
-\* the hook is called on `before` and leaves `after`; then the generic checks run
-AfterHook(st1, p) ==
-  LET n == StepCheckName(shape, p) IN
-  IF ~n.ok THEN n ELSE
-  LET c == StepChecksum(shape, StepRetain(p), LowerTab) IN
-  IF ~c.ok THEN c ELSE [ok |-> TRUE, v |-> MkValue(shape, st1, c.parts)]
+     IF c.ok THEN conv' = "ok" /\ st' = c.st ELSE conv' = "failed" /\ st' = st
+  /\ UNCHANGED <<pc, shape, entry, info, hook, parts, out, nFin>>
+
+\* the hook is called on `before` and leaves `after` (hookOk: whether it reported success)
+CanFinish(before) == /\ pc = "open" /\ hook = "none" /\ before = parts
+                     /\ (entry = "parse" => (conv = "ok" /\ info.clean))
 MFinish(before, after, hookOk) ==
-  /\ pc = "finish" /\ before = parts
+  /\ CanFinish(before)
   /\ nFin' = nFin + 1
   /\ LET r == StepFinish(shape, st, before, LowerTab) IN
      /\ hookOk = r.ok
-     /\ IF r.ok THEN after = r.parts /\ parts' = after /\ st' = r.st /\ out' = AfterHook(r.st, after)
-        ELSE parts' = parts /\ st' = st /\ out' = r
-  /\ pc' = "end"
-  /\ UNCHANGED <<shape, entry, front, nConv>>
-MEnd(o) == /\ pc = "end" /\ o = out /\ pc' = "idle"
-           /\ UNCHANGED <<shape, entry, front, st, parts, out, nConv, nFin>>
+     /\ IF r.ok THEN after = r.parts /\ parts' = after /\ st' = r.st /\ hook' = "ok"
+        ELSE after = before /\ parts' = parts /\ st' = st /\ hook' = "failed"
+  /\ UNCHANGED <<pc, shape, entry, info, conv, out, nConv>>
+
+\* the generic checks that run after the hook; with two defects either error may be reported
+AfterHookOf(shp, st1, p) ==
+  LET n == StepCheckName(shp, p)
+      c == StepChecksum(shp, StepRetain(p), LowerTab)
+  IN IF n.ok /\ c.ok THEN {[ok |-> TRUE, v |-> MkValue(shp, st1, c.parts)]}
+     ELSE (IF n.ok THEN {} ELSE {n}) \cup (IF c.ok THEN {} ELSE {c})
+AfterHook(st1, p) == AfterHookOf(shape, st1, p)
+\* the outcomes with which the call may return in the current state
+ConvFailure == ShapeConv(shape, info.type)
+HookFailure == StepFinish(shape, st, parts, LowerTab)
+AllowedOut ==
+  IF conv = "failed" THEN {ConvFailure}
+  ELSE IF hook = "failed" THEN {HookFailure}
+  ELSE IF hook = "ok" THEN AfterHook(st, parts)
+  ELSE IF entry = "parse" THEN {Err(WrapErr(shape, e)) : e \in info.defects}       \* nothing to return unless there is a defect
+  ELSE {}                                                                            \* build() never returns before the hook
+CanEnd(o) == pc = "open" /\ o \in AllowedOut
+MEnd(o) == /\ CanEnd(o) /\ out' = o /\ pc' = "end"
+           /\ UNCHANGED <<shape, entry, info, conv, hook, st, parts, nConv, nFin>>
+
+(***************************************************************************)
+(* The same as functions of the input: everything a call may return and    *)
+(* how often the callbacks may have run when it does (used for the cases   *)
+(* TLC hands to the replay; MC_Shapes checks them against the machine).    *)
+(***************************************************************************)
+AllowedParse(s, shp) ==
+  LET a == Analyse(s) IN
+  IF a.clean THEN
+     LET c == ShapeConv(shp, a.type) IN
+     IF ~c.ok THEN [outs |-> {c}, nconv |-> {1}, nfin |-> {0}]
+     ELSE LET r == StepFinish(shp, c.st, a.parts, LowerTab) IN
+          [outs |-> IF r.ok THEN AfterHookOf(shp, r.st, r.parts) ELSE {r}, nconv |-> {1}, nfin |-> {1}]
+  ELSE [outs |-> {Err(WrapErr(shp, e)) : e \in a.defects}
+                 \cup (IF a.typeKnown /\ ~ShapeConv(shp, a.type).ok THEN {ShapeConv(shp, a.type)} ELSE {}),
+        nconv |-> IF a.typeKnown THEN {0, 1} ELSE {0}, nfin |-> {0}]
+AllowedBuild(st0, parts0, shp) ==
+  LET r == StepFinish(shp, st0, parts0, LowerTab) IN
+  [outs |-> IF r.ok THEN AfterHookOf(shp, r.st, r.parts) ELSE {r}, nconv |-> {0}, nfin |-> {1}]
 
 (***************************************************************************)
 (* C14 as properties of the machine.                                       *)
 (***************************************************************************)
 C14_Counts == nConv <= 1 /\ nFin <= 1
-                /\ (nFin = 1 => (entry = "build" \/ nConv = 1))          \* never before the conversion succeeded
+                /\ (nFin = 1 => (entry = "build" \/ (nConv = 1 /\ conv = "ok")))   \* never before the conversion succeeded
                 /\ (entry = "build" => nConv = 0)
 C14_AtEnd == pc = "end" =>
      /\ (out.ok => nFin = 1)                                               \* exactly once per successful build
+     /\ (entry = "build" => nFin = 1)                                      \* exactly once per build()
+     /\ (conv = "failed" => (~out.ok /\ out = ConvFailure /\ nFin = 0))    \* errors are returned unchanged
+     /\ (hook = "failed" => (~out.ok /\ out = HookFailure))
      /\ (~out.ok /\ out.err = "ConvError" => nConv = 1 /\ nFin = 0 /\ shape.kind = "test" /\ ~shape.conv)
      /\ (~out.ok /\ out.err = "HookError" => nFin = 1 /\ shape.kind = "test" /\ ~shape.fin)
      /\ (out.ok => ValidFor(shape, out.v))                                      \* generic checks ran after the hook
